@@ -40,7 +40,7 @@ let adapter s = match sp '|' s with
   | _ -> failwith ("adapter " ^ s)
 let zs z = string_of_int (int_of_z z)
 let show_value = function
-  | VStr s -> "S" ^ csv_of_nlist s | VInt z -> "I" ^ zs z | VFloat t -> "F" ^ csv_of_nlist t | VUuid h -> "U" ^ csv_of_nlist h
+  | VStr s -> "S" ^ csv_of_nlist s | VInt z -> "I" ^ zs z | VFloat t -> "F" ^ csv_of_nlist t | VFloatRaw t -> "F" ^ csv_of_nlist t | VUuid h -> "U" ^ csv_of_nlist h
 let show_args l = if l = [] then "-" else String.concat "|" (List.map (fun (k, v) -> csv_of_nlist k ^ "=" ^ show_value v) l)
 let show_outcome = function
   | Match (r, vs) -> Printf.sprintf "M %d %d %s" (int_of_n r.r_idx) (int_of_n r.r_endpoint) (show_args vs)
